@@ -35,3 +35,18 @@ def MemUnderProjection(**f):
                 and (data is None or f.get("data") == data) and (opt is None or f.get("optimize") == opt):
             return True
     return False
+
+
+def RetargetShared(**f):
+    """F8 (PlanGraph.tla taint "retarget-shared", computed by TLC for the replayed history)."""
+    return f.get("kind") in ("history", "store-call") and "retarget-shared" in (f.get("taint") or [])
+
+
+def RetargetTwice(**f):
+    """F9 (PlanGraph.tla taint "retarget-twice")."""
+    return f.get("kind") in ("history", "store-call") and "retarget-twice" in (f.get("taint") or [])
+
+
+def NameCollision(**f):
+    """F10 (PlanGraph.tla taint "name-collision")."""
+    return f.get("kind") in ("history", "ship") and "name-collision" in (f.get("taint") or [])
